@@ -1067,9 +1067,6 @@ class WalkRaceStream(Stream):
                 yield race_case(rng, cmd)
 
     def impl(self, case):
-        return cli.run_bounded(lambda: self.body(case), TIME_LIMIT)
-
-    def body(self, case):
         import shutil
         import reuse.vcs as rv
 
@@ -1261,17 +1258,9 @@ class TerminationStream(Stream):
                 extra = rng.choice(["none", "none", "toml", "dep5"])
                 yield {"files": files, "extra": extra, "value": HEADS[0] + run_of(rng) + TAILS[0], "cmd": cmd}
 
-    _timeouts = 0
+    MAX_TIMEOUTS = 2  # two commands had to be killed: the point is made, do not wait for the time limit again and again ("skipped")
 
     def impl(self, case):
-        if TerminationStream._timeouts >= 2:
-            return "skipped"  # two commands had to be killed already: the point is made, do not wait for the time limit again and again
-        out = cli.run_bounded(lambda: self.body(case), TIME_LIMIT)
-        if out.startswith("timeout"):
-            TerminationStream._timeouts += 1
-        return out
-
-    def body(self, case):
         with cli.scratch("rv-c16t-") as root, no_network():
             tree = {"LICENSES/MIT.txt": "MIT text\n"}
             tree.update(case["files"])
@@ -1312,22 +1301,51 @@ class TerminationStream(Stream):
 
 def bounded(stream_cls):
     """Every command run of the stream happens in a child process with the time limit: a run that does not come back is the
-    observation 'timeout:<s>' and the oracle reports it as 'does not terminate'."""
-    inner_impl, inner_oracle = stream_cls.impl, stream_cls.oracle
+    observation 'timeout:<s>' and the oracle reports it as 'does not terminate'.  The cases the stream generates are handed to
+    the children in batches (cli.run_bounded_batch); any other case (a replayed corpus case) runs in a child of its own."""
+    inner_cases, inner_impl, inner_oracle = stream_cls.cases, stream_cls.impl, stream_cls.oracle
+    BATCH = 40
+
+    def key(case):
+        return json.dumps(case, sort_keys=True, default=str)
+
+    def cases(self, tier, rng):
+        cli.warm_up()
+        self._pending = list(inner_cases(self, tier, rng))
+        self._index = {}
+        for i, c in enumerate(self._pending):
+            self._index.setdefault(key(c), i)
+        self._done = {}
+        self._kills = 0
+        return iter(self._pending)
 
     def impl(self, case):
-        return cli.run_bounded(lambda: inner_impl(self, case), TIME_LIMIT)
+        k = key(case)
+        done = getattr(self, "_done", None)
+        if done is None or k not in getattr(self, "_index", {}):
+            return cli.run_bounded(lambda: inner_impl(self, case), TIME_LIMIT)
+        if k not in done:
+            limit_kills = getattr(self, "MAX_TIMEOUTS", None)
+            i = self._index[k]
+            batch = self._pending[i:i + BATCH]
+            outs = cli.run_bounded_batch(lambda c: inner_impl(self, c), batch, TIME_LIMIT,
+                                         max_timeouts=None if limit_kills is None else max(limit_kills - self._kills, 0))
+            for c, o in zip(batch, outs):
+                done.setdefault(key(c), o)
+                self._kills += o.startswith("timeout")
+        return done[k]
 
     def oracle(self, case, impl_out):
         if impl_out.startswith("timeout"):
-            return "does-not-terminate: the command did not finish within %s s (killed)" % impl_out.split(":")[1]
+            return "does-not-terminate: `reuse %s` did not finish within %s s (killed)" % (
+                case.get("cmd") or case.get("variant") or "annotate", impl_out.split(":")[1])
         return inner_oracle(self, case, impl_out)
 
-    stream_cls.impl, stream_cls.oracle = impl, oracle
+    stream_cls.cases, stream_cls.impl, stream_cls.oracle = cases, impl, oracle
     return stream_cls
 
 
-for _cls in (CliStream, PerFileStream, AnnotateStream):
+for _cls in (CliStream, PerFileStream, AnnotateStream, WalkRaceStream, TerminationStream):
     bounded(_cls)
 
 
